@@ -98,10 +98,12 @@ func (srv *Session) consumeSingleCommand(ctx context.Context, reader *buffer.Rea
 		return err
 	}
 
+	verifPoint("cmd:received")
 	if srv.closing.Load() {
 		return nil
 	}
 
+	verifPoint("cmd:admitted")
 	// NOTE: we increase the wait group by one in order to make sure that idle
 	// connections are not blocking a close.
 	srv.wg.Add(1)
